@@ -37,7 +37,8 @@ HARNESS = os.path.join(ROOT, "protoharness")
 REPO = os.path.abspath(os.environ.get("MW_REPO", "/repo"))
 JAVA_OPTS = "-Xss1g -Dtlc2.tool.queue.IStateQueue=StateDeque"
 PROP = "C20"
-SHARDS = 6                     # ProtoTrace runs side by side (1 TLC worker each)
+SHARDS = 8                     # ProtoGen / ProtoTrace runs side by side (1 TLC worker each)
+RANDOM_PER_MESSAGE = 24        # thorough: random valid encodings per message type (and as many mutated ones)
 RUST_KEYWORDS = {"move", "type", "mod", "use", "ref", "fn", "impl", "in", "box", "as", "async", "await", "loop", "match",
                  "where", "yield", "final", "override", "abstract", "static", "struct", "enum", "trait", "self", "super",
                  "crate", "pub", "let", "mut", "const", "dyn", "unsafe", "extern", "true", "false", "if", "else", "for",
@@ -539,17 +540,19 @@ def check(tier, seed, only=None):
 
     fqs = sorted(set(oracle["messages"]))
     if only:
+        for u in cur["type_urls"]:          # a replayed URL probe needs the non-default sample of its message
+            if u["rust"] in only["urls"]:
+                only["msgs"].setdefault(u["fq"], {})
         fqs = [fq for fq in fqs if fq in only["msgs"]]
     # kind-level vectors need the message and its direct children only
     vectors, gen_stats = gen_vectors({fq: table_for(omsgs, fq, 1) for fq in fqs}, workdir) if fqs else ({}, {"states": 0, "transitions": 0, "wall_s": 0, "vectors": 0})
-    depth = 1
+    depth = 64          # records carry the transitive closure of the message's descriptor (1.6 MB for all messages)
     n_random = 0
     if tier == "thorough" and not only:
-        depth = 3
         rng = random.Random(seed)
         for fq in fqs:
             extra = []
-            for k in range(6):
+            for k in range(RANDOM_PER_MESSAGE):
                 b = rnd_message(rng, omsgs, fq, 2)
                 extra.append((f"r.{k}", b))
                 extra.append((f"x.{k}", mutate(rng, b)))
@@ -560,8 +563,6 @@ def check(tier, seed, only=None):
             have = dict(vectors[fq])
             extra = {vid: b for vid, b in only["msgs"][fq].items() if vid and vid not in have}
             vectors[fq] = [(vid, b) for vid, b in vectors[fq] if vid in only["msgs"][fq] or vid == "m.all"] + sorted(extra.items())
-            if any(v.startswith(("r.", "x.")) for v in extra):
-                depth = 3
 
     lines = [{"t": "msg", "fq": fq, "vec": [{"id": vid, "b": hexs(b)} for vid, b in vectors[fq]]} for fq in fqs]
     ulines = url_lines(cur, vectors) if not only else [u for u in url_lines(cur, vectors) if u["rust"] in only["urls"]]
@@ -611,7 +612,7 @@ def report(res, tier, seed, replay_tag=None):
     if len(real) > 40:
         print(f"... {len(real) - 40} more findings in the replay file")
     path = None
-    if real:
+    if real and replay_tag != "replayed":
         path = write_replay(replay_tag or f"{tier}-seed{seed}", [f for f, _ in real], res["recs"])
     return real, kn, path
 
